@@ -26,13 +26,13 @@ DEFAULTS = {'appxml': 'utf-8', 'textxml': 'ascii', 'html': 'iso-8859-1', 'text':
 
 
 def run(chk):
-    r20a(chk)
-    r20b(chk)
-    r20c(chk)
-    r20e(chk)
-    r20f(chk)
+    chk.attempt(r20a, chk)
+    chk.attempt(r20b, chk)
+    chk.attempt(r20c, chk)
+    chk.attempt(r20e, chk)
+    chk.attempt(r20f, chk)
     try:
-        r20d(chk)
+        chk.attempt(r20d, chk)
     except AnalysisError as e:
         # the shape rules are a second opinion on what R20.e decides semantically
         chk.rule('R20.d', 'shape rules on detectXMLEncoding (skipped: ' + str(e)[:80] + ')')
